@@ -779,6 +779,63 @@ Section C06.
     destruct (update_node_admit _ _ _ _ _ _ _ Eu Hr Hi H0 Hsec Hu' Hroom) as (H1 & H2 & _). auto.
   Qed.
 
+  (* ... and such a step exists: with room in the bucket the table update cannot fail, so for a
+     solicited response every choice without a victim is accepted (the hypotheses of C06_admitted
+     are jointly satisfiable in every state) *)
+  Lemma update_node_admit_ok s a i u :
+    i <> c_root cfg -> i <> 0%N -> (c_no_security cfg = true \/ id_secure i (ip a) = true) ->
+    u <> UFailedPing ->
+    (length (bucket (s_nodes s) (slot_of i)) < K)%nat ->
+    exists s1, update_node s a (Some i) true u None = Ok (s1, Added).
+  Proof.
+    intros Hi H0 Hsec Hu Hroom. unfold Server.update_node.
+    destruct (get_node cfg (s_nodes s) a i) as [g|] eqn:Eg; [eexists; reflexivity|].
+    pose proof Hi as Hi'. apply N.eqb_neq in Hi'. rewrite Hi'. cbn [negb orb].
+    remember (apply_update (s_now s) u (mkNode i a None None false (slot_of i))) as n0 eqn:Hn0.
+    assert (Hid0 : n_id n0 = i) by (rewrite Hn0, apply_update_id; reflexivity).
+    assert (Had0 : n_addr n0 = a) by (rewrite Hn0, apply_update_addr; reflexivity).
+    assert (Hb : node_bad n0 = false).
+    { unfold Server.node_bad. rewrite Hid0, Had0.
+      replace (n_failed n0) with false by (rewrite Hn0; destruct u; try reflexivity; congruence).
+      apply N.eqb_neq in H0. rewrite Hi', H0.
+      destruct Hsec as [-> | ->]; rewrite ?orb_true_r; reflexivity. }
+    unfold Server.add_node. rewrite Hb, Hid0.
+    pose proof Hroom as Hroom'. apply Nat.leb_gt in Hroom'. rewrite Hroom'.
+    unfold Server.table_add. rewrite Hid0, Had0, Hi', Hroom'.
+    destruct (existsb _ _) eqn:Ee; [exfalso|eexists; reflexivity].
+    apply existsb_exists in Ee as (x & Hx & Hsame). unfold bucket in Hx.
+    apply filter_In in Hx as [Hx Hs].
+    unfold get_node in Eg. rewrite Hi' in Eg. pose proof (find_none _ _ Eg x Hx) as F.
+    cbn beta in F. rewrite Hs, Hsame in F. discriminate.
+  Qed.
+
+  Theorem C06_admitted_possible s src size m idb ch :
+    passes_filters s src size -> m_y m <> s_q -> solicited s src m ->
+    m_ro m = false -> sender_id m = Some idb ->
+    toN idb <> c_root cfg -> toN idb <> 0%N ->
+    (c_no_security cfg = true \/ id_secure (toN idb) (ip src) = true) ->
+    (length (bucket (s_nodes s) (slot_of (toN idb))) < K)%nat ->
+    ch_victim ch = None ->
+    exists s' qid, step s (EPacket src size (Some m)) ch = SR s' [ECompleted qid m] /\
+                   In (toN idb, addr_key src) (keys s').
+  Proof.
+    intros Hpf Hy Hsol Hro Hsd Hi H0 Hsec Hroom Hv.
+    assert (Hex : exists s' qid, step s (EPacket src size (Some m)) ch = SR s' [ECompleted qid m]).
+    { destruct Hpf as (P1 & P2 & P3 & P4). apply N.eqb_neq in P1, P2.
+      unfold Server.step. rewrite P1, P2, P3, P4.
+      destruct (bytes_eqb (m_y m) s_q) eqn:Ey; [apply bytes_eqb_eq in Ey; congruence|].
+      destruct (find _ _) as [x|] eqn:Ef.
+      2:{ destruct Hsol as (x & Hx1 & Hx2). pose proof (find_none _ _ Ef x Hx1). congruence. }
+      rewrite Hsd, Hro, Hv. cbn [option_map negb].
+      match goal with |- context[update_node ?s0 _ _ _ _ _] =>
+        destruct (update_node_admit_ok s0 src (id_of idb) UResponse Hi H0 Hsec) as [s1 Hu];
+          [discriminate|exact Hroom|rewrite Hu] end.
+      exists s1, (tx_qid x). reflexivity. }
+    destruct Hex as (s' & qid & Hstep). exists s', qid. split; [exact Hstep|].
+    assert (Hpf' := Hpf).
+    exact (proj1 (C06_admitted _ _ _ _ _ _ _ _ Hstep Hpf Hro Hsd (or_intror Hsol) Hi H0 Hsec Hroom)).
+  Qed.
+
   (* ================================================================ C06: liveness evidence *)
   (* lastGotResponse of an existing entry is set only by a solicited response from its own address
      and id, lastGotQuery only by a query from it *)
@@ -820,4 +877,76 @@ Section C06.
     - split; cbn; congruence.
   Qed.
 
+  (* ================================================================ histories *)
+  Lemma run_reachable evs : forall s s' outs,
+    reachable Store w_put w_get sha1 id_secure cfg s ->
+    Forall (fun ec => wf_event (fst ec)) evs ->
+    run Store w_put w_get sha1 id_secure cfg s evs = Some (s', outs) ->
+    reachable Store w_put w_get sha1 id_secure cfg s'.
+  Proof.
+    induction evs as [|[e ch] evs IH]; intros s s' outs Hr Hwf H; cbn [run] in H.
+    - inversion H; subst; exact Hr.
+    - inversion Hwf as [|? ? Hw Hwf']; subst. cbn [fst] in Hw.
+      destruct (step s e ch) as [s1 o1| |] eqn:Es; try discriminate.
+      destruct (run _ _ _ _ _ _ s1 evs) as [[s2 o2]|] eqn:Er; [|discriminate].
+      inversion H; subst. eapply IH; [|exact Hwf'|exact Er].
+      eapply reach_step; eauto.
+  Qed.
+
 End C06.
+
+(* ------------------------------------------------------------------ a decidable form of wf_event,
+   used to discharge the side conditions of concrete histories by computation *)
+Definition wf_ip_b (b : bytes) : bool := Nat.eqb (length b) 4 || Nat.eqb (length b) 16.
+
+Definition wf_msg_in_b (m : msg) : bool :=
+  match m_a m with
+  | Some a => Nat.eqb (length (a_id a)) 20 && Nat.eqb (length (a_info_hash a)) 20 &&
+              Nat.eqb (length (a_target a)) 20
+  | None => true
+  end &&
+  match m_r m with Some r => Nat.eqb (length (r_id r)) 20 | None => true end.
+
+Definition wf_event_b (e : event) : bool :=
+  match e with
+  | EPacket src _ (Some m) => wf_ip_b (ip src) && wf_msg_in_b m
+  | EPacket src _ None => wf_ip_b (ip src)
+  | EAddNode i _ id => wf_ip_b i && N.ltb id (2 ^ 160)
+  | EQueryStart _ dst _ _ _ _ => wf_ip_b (ip dst)
+  | EFailedPing a id => wf_ip_b (ip a) && N.ltb id (2 ^ 160)
+  | _ => true
+  end.
+
+Lemma wf_ip_b_ok b : wf_ip_b b = true -> wf_ip b.
+Proof.
+  unfold wf_ip_b, wf_ip. intros H. apply orb_true_iff in H as [H|H]; apply Nat.eqb_eq in H; auto.
+Qed.
+
+Lemma wf_msg_in_b_ok m : wf_msg_in_b m = true -> wf_msg_in m.
+Proof.
+  unfold wf_msg_in_b, wf_msg_in, wf_args. intros H. apply andb_true_iff in H as [H1 H2]. split.
+  - intros a Ha. rewrite Ha in H1. apply andb_true_iff in H1 as [H1 H3].
+    apply andb_true_iff in H1 as [H1 H4]. apply Nat.eqb_eq in H1, H3, H4. auto.
+  - intros r Hr. rewrite Hr in H2. apply Nat.eqb_eq in H2. exact H2.
+Qed.
+
+Lemma wf_event_b_ok e : wf_event_b e = true -> wf_event e.
+Proof.
+  destruct e as [src size [m|]|d|i p id|qid dst q a rated t|qid|a id|bl|]; cbn [wf_event_b wf_event];
+    intros H; auto.
+  - apply andb_true_iff in H as [H1 H2]. split; [apply wf_ip_b_ok; exact H1|apply wf_msg_in_b_ok; exact H2].
+  - apply wf_ip_b_ok; exact H.
+  - apply andb_true_iff in H as [H1 H2]. split; [apply wf_ip_b_ok; exact H1|apply N.ltb_lt; exact H2].
+  - apply wf_ip_b_ok; exact H.
+  - apply andb_true_iff in H as [H1 H2]. split; [apply wf_ip_b_ok; exact H1|apply N.ltb_lt; exact H2].
+Qed.
+
+Lemma run_reachable_b Store w_put w_get sha1 id_secure cfg st now bl budget evs s' outs :
+  forallb (fun ec => wf_event_b (fst ec)) evs = true ->
+  run Store w_put w_get sha1 id_secure cfg (init_state Store st now bl budget) evs = Some (s', outs) ->
+  reachable Store w_put w_get sha1 id_secure cfg s'.
+Proof.
+  intros Hwf Hrun. eapply run_reachable; [apply reach_init| |exact Hrun].
+  apply Forall_forall. intros ec Hin. apply wf_event_b_ok.
+  rewrite forallb_forall in Hwf. apply Hwf; exact Hin.
+Qed.
